@@ -11,13 +11,13 @@ guard is the bitwise AND of the enclosing guard and the condition.
 namespace Pysnark
 
 /-! ## nested guards: the value of `guard & cond` -/
-theorem bitsVal_zero : ∀ (l : List Int) (i : Nat), (∀ x ∈ l, x = 0) → bitsVal l i = 0
+theorem bitsVal_zero_br : ∀ (l : List Int) (i : Nat), (∀ x ∈ l, x = 0) → bitsVal l i = 0
   | [], _, _ => rfl
   | b :: bs, i, h => by
     simp only [bitsVal, h b (by simp), zero_mul, zero_add]
-    exact bitsVal_zero bs (i+1) (fun x hx => h x (List.mem_cons_of_mem _ hx))
+    exact bitsVal_zero_br bs (i+1) (fun x hx => h x (List.mem_cons_of_mem _ hx))
 
-theorem bitsOf_zero (n : Nat) : ∀ x ∈ Py.bitsOf 0 n, x = 0 := by
+theorem bitsOf_zero_br (n : Nat) : ∀ x ∈ Py.bitsOf 0 n, x = 0 := by
   intro x hx
   simp only [Py.bitsOf, List.mem_map, List.mem_range] at hx
   obtain ⟨i, _, rfl⟩ := hx
@@ -35,12 +35,12 @@ theorem andLL_zero {s s' : St} {a b : LinComb} {o : Option LinComb} (ha : a.valu
   obtain ⟨_, vr⟩ := mapM'_val (fun xy : LinComb × LinComb => mulBB xy.1 xy.2) (fun xy => xy.1.value * xy.2.value)
     (fun _ => True) (fun _ _ _ _ => trivial) (fun xy s s' r _ h => mulBB_val h) _ trivial h3
   rw [valFB_fromBits, vr, map_zip_values (· * ·), va, ha]
-  apply bitsVal_zero
+  apply bitsVal_zero_br
   intro x hx
   obtain ⟨i, hi, rfl⟩ := List.getElem_of_mem hx
   simp only [List.getElem_zipWith]
   have : (Py.bitsOf 0 (Option.none.getD s.bitlength))[i]'(by simp only [List.length_zipWith] at hi; omega) = 0 :=
-    bitsOf_zero _ _ (List.getElem_mem _)
+    bitsOf_zero_br _ _ (List.getElem_mem _)
   rw [this, zero_mul]
 
 /-- saved guard triple that can be reinstalled in any later state -/
@@ -62,7 +62,7 @@ theorem TripleOk.init (s : St) : TripleOk s ⟨none, false, oneSafe⟩ :=
     guardGood := fun g hg => by cases hg
     ign := by simp }
 
-theorem restoreGuard_inv {s s' : St} {og : GuardBak} {u : Unit} (hinv : Inv s) (ht : TripleOk s og)
+theorem restoreGuard_invT {s s' : St} {og : GuardBak} {u : Unit} (hinv : Inv s) (ht : TripleOk s og)
     (h : restoreGuard og s = .ok (u, s')) : s.le s' ∧ Inv s' := by
   rw [restoreGuard_ok h]
   have hle : s.le { s with guard := og.guard, ignoreErrors := og.ignoreErrors, one := og.one } :=
@@ -158,14 +158,14 @@ theorem addGuard_lcb_inv {s s1 : St} {c : LinComb} {og : GuardBak} (hinv : Inv s
 
 
 /-! ## coherence of everything the program can reach -/
-def BoolV (c : LinComb) : Prop := c.value = 0 ∨ c.value = 1
+def BoolLC (c : LinComb) : Prop := c.value = 0 ∨ c.value = 1
 
 def GoodVals (s : St) (vs : Vals) : Prop := ∀ kv ∈ vs, Good s kv.2.v
 
 structure GoodCtx (s : St) (c : BCtx) : Prop where
   bak : GoodVals s c.bak
-  cond : Good s c.cond ∧ BoolV c.cond
-  icond : ∀ ic, c.icond = some ic → Good s ic ∧ BoolV ic
+  cond : Good s c.cond ∧ BoolLC c.cond
+  icond : ∀ ic, c.icond = some ic → Good s ic ∧ BoolLC ic
   nd : ∀ nd, c.nodefvals = some nd → GoodVals s nd
   og : TripleOk s c.origguard
 
@@ -295,7 +295,7 @@ theorem exit_inv {ctx ctx' : BCtx} {bv bv' : BV} {s s' : St} (hinv : Inv s) (hP 
     (hv : GoodVals s bv.vals) (h : ctx.exit bv s = .ok ((ctx', bv'), s')) :
     Spec s s' (GoodCtx s' ctx' ∧ GoodVals s' bv'.vals) := by
   obtain ⟨s1, nd, n1, s2, vals, n2, hr, hnd, hb, rfl, rfl⟩ := exit_ok h
-  obtain ⟨le1, inv1⟩ := restoreGuard_inv hinv hc.og hr
+  obtain ⟨le1, inv1⟩ := restoreGuard_invT hinv hc.og hr
   have hP1 := hP.mono le1
   have hc1 := hc.mono le1
   have hv1 := hv.mono le1
@@ -311,7 +311,7 @@ theorem exit_inv {ctx ctx' : BCtx} {bv bv' : BV} {s s' : St} (hinv : Inv s) (hP 
     ⟨hc3.bak, hc3.cond, hc3.icond, fun nd' hn' => by cases hn'; exact gnd.mono le3, hc3.og⟩, gv⟩
 
 theorem enter_inv {ctx ctx' : BCtx} {c : LinComb} {bv : BV} {s s' : St} (hinv : Inv s) (hP : PrimeP s)
-    (hc : GoodCtx s ctx) (hcc : Good s c ∧ BoolV c) (hv : GoodVals s bv.vals)
+    (hc : GoodCtx s ctx) (hcc : Good s c ∧ BoolLC c) (hv : GoodVals s bv.vals)
     (h : ctx.enter c bv s = .ok (ctx', s')) : Spec s s' (GoodCtx s' ctx') := by
   obtain ⟨og, hg, rfl⟩ := enter_ok h
   obtain ⟨le1, inv1, rfl⟩ := addGuard_lcb_inv hinv hcc.1 hcc.2 hg
@@ -319,36 +319,36 @@ theorem enter_inv {ctx ctx' : BCtx} {c : LinComb} {bv : BV} {s s' : St} (hinv : 
   exact ⟨le1, inv1, hP.mono le1, ⟨hv.mono le1, ⟨hcc.1.mono le1, hcc.2⟩, hc1.icond, hc1.nd, (TripleOk.of_inv hinv).mono le1⟩⟩
 
 theorem andBB_inv {x y r : LinComb} {s s' : St} (hinv : Inv s) (hP : PrimeP s) (hx : Good s x) (hy : Good s y)
-    (h : andBB x y s = .ok (r, s')) : Spec s s' (Good s' r ∧ BoolV r) := by
+    (h : andBB x y s = .ok (r, s')) : Spec s s' (Good s' r ∧ BoolLC r) := by
   obtain ⟨p, s1, h1, h2⟩ := andBB_ok h
   obtain ⟨le1, _, inv1, g1⟩ := mulLL_spec' hinv hx hy h1
   obtain ⟨le2, _, inv2, rfl, hb⟩ := mkBool_spec inv1 g1 h2
   exact ⟨le1.trans le2, inv2, hP.mono (le1.trans le2), g1.mono le2, hb⟩
 
 theorem boolNot_inv {b r : LinComb} {s s' : St} (hinv : Inv s) (hP : PrimeP s) (hb : Good s b)
-    (h : boolNot b s = .ok (r, s')) : Spec s s' (Good s' r ∧ BoolV r) := by
+    (h : boolNot b s = .ok (r, s')) : Spec s s' (Good s' r ∧ BoolLC r) := by
   obtain ⟨le1, _, inv1, g1⟩ := boolNot_spec hinv hb h
   obtain ⟨_, v, hbv⟩ := boolNot_val h
-  exact ⟨le1, inv1, hP.mono le1, g1, by unfold BoolV; rw [v]; rcases hbv with h0 | h1 <;> simp [*]⟩
+  exact ⟨le1, inv1, hP.mono le1, g1, by unfold BoolLC; rw [v]; rcases hbv with h0 | h1 <;> simp [*]⟩
 
-theorem GoodCtx.init {s : St} {c : LinComb} (hc : Good s c ∧ BoolV c) (isIf : Bool) (ic : Option LinComb)
-    (hic : ∀ i, ic = some i → Good s i ∧ BoolV i) :
+theorem GoodCtx.init {s : St} {c : LinComb} (hc : Good s c ∧ BoolLC c) (isIf : Bool) (ic : Option LinComb)
+    (hic : ∀ i, ic = some i → Good s i ∧ BoolLC i) :
     GoodCtx s { isIf := isIf, bak := [], cond := c, icond := ic, nodefvals := none, origguard := ⟨none, false, oneSafe⟩ } :=
   ⟨fun kv hkv => (by cases hkv), hc, hic, fun nd hn => (by cases hn), TripleOk.init s⟩
 
 theorem ifNew_inv {c : LinComb} {bv : BV} {ctx : BCtx} {s s' : St} (hinv : Inv s) (hP : PrimeP s)
-    (hc : Good s c ∧ BoolV c) (hv : GoodVals s bv.vals) (h : ifNew c bv s = .ok (ctx, s')) :
+    (hc : Good s c ∧ BoolLC c) (hv : GoodVals s bv.vals) (h : ifNew c bv s = .ok (ctx, s')) :
     Spec s s' (GoodCtx s' ctx) := by
   unfold ifNew at h
   obtain ⟨ic, s1, h1, h2⟩ := bind_ok.mp h
   obtain ⟨le1, inv1, hP1, gic⟩ := boolNot_inv hinv hP hc.1 h1
-  have hc1 : Good s1 c ∧ BoolV c := ⟨hc.1.mono le1, hc.2⟩
+  have hc1 : Good s1 c ∧ BoolLC c := ⟨hc.1.mono le1, hc.2⟩
   obtain ⟨le2, inv2, hP2, g2⟩ := enter_inv inv1 hP1
     (GoodCtx.init hc1 true (some ic) (fun i hi => by cases hi; exact gic)) hc1 (hv.mono le1) h2
   exact ⟨le1.trans le2, inv2, hP2, g2⟩
 
 theorem whileNew_inv {c : LinComb} {bv : BV} {ctx : BCtx} {s s' : St} (hinv : Inv s) (hP : PrimeP s)
-    (hc : Good s c ∧ BoolV c) (hv : GoodVals s bv.vals) (h : whileNew c bv s = .ok (ctx, s')) :
+    (hc : Good s c ∧ BoolLC c) (hv : GoodVals s bv.vals) (h : whileNew c bv s = .ok (ctx, s')) :
     Spec s s' (GoodCtx s' ctx) := by
   unfold whileNew at h
   exact enter_inv hinv hP (GoodCtx.init hc false none (fun i hi => by cases hi)) hc hv h
@@ -407,7 +407,7 @@ theorem ifElif_inv {ctx ctx' : BCtx} {thunk : BV → M Val} {bv bv' : BV} {s s' 
 
 /-! ## conditions are boolean-valued whatever the guard is -/
 theorem checkPositive_bool {s s' : St} {x r : LinComb} {bits : Option Nat}
-    (h : checkPositive x bits s = .ok (r, s')) : BoolV r := by
+    (h : checkPositive x bits s = .ok (r, s')) : BoolLC r := by
   unfold checkPositive at h
   rw [getSt_bind] at h
   obtain ⟨⟨retv, bitvs⟩, s1, h1, h⟩ := bind_ok.mp h
@@ -417,20 +417,20 @@ theorem checkPositive_bool {s s' : St} {x r : LinComb} {bits : Option Nat}
   obtain ⟨u, s4, h4, h⟩ := bind_ok.mp h
   obtain ⟨rfl, rfl⟩ := pure_ok' h
   obtain ⟨_, v2, hb⟩ := privValBool_val h2
-  unfold BoolV; rw [v2]; exact hb
+  unfold BoolLC; rw [v2]; exact hb
 
 section
 variable {s s' : St} {a : LinComb} {o v : Val}
 
 theorem checkPositiveV_lc_bool {d : LinComb} (h : checkPositiveV (.lc d) s = .ok (v, s')) :
-    ∃ r, v = .lcb r ∧ BoolV r := by
+    ∃ r, v = .lcb r ∧ BoolLC r := by
   unfold checkPositiveV at h
   obtain ⟨r, s1, h1, h⟩ := bind_ok.mp h
   obtain ⟨rfl, rfl⟩ := pure_ok' h
   exact ⟨r, rfl, checkPositive_bool h1⟩
 
 theorem cmpLV_int_bool {op : Cmp} (ho : IsIntV o) (h : cmpLV op a o s = .ok (v, s')) :
-    ∃ r, v = .lcb r ∧ BoolV r := by
+    ∃ r, v = .lcb r ∧ BoolLC r := by
   unfold cmpLV at h
   cases op <;> simp only at h
   · obtain ⟨d, s1, h1, h⟩ := bind_ok.mp h
@@ -444,11 +444,11 @@ theorem cmpLV_int_bool {op : Cmp} (ho : IsIntV o) (h : cmpLV op a o s = .ok (v, 
   · obtain ⟨d, s1, h1, h⟩ := bind_ok.mp h
     obtain ⟨rfl, d1, rfl, _⟩ := subLV_val ho h1
     obtain ⟨_, r, rfl, vr⟩ := checkZeroV_lc_val h
-    exact ⟨r, rfl, by unfold BoolV; rw [vr]; split <;> simp⟩
+    exact ⟨r, rfl, by unfold BoolLC; rw [vr]; split <;> simp⟩
   · obtain ⟨d, s1, h1, h⟩ := bind_ok.mp h
     obtain ⟨rfl, d1, rfl, _⟩ := subLV_val ho h1
     obtain ⟨_, r, rfl, vr⟩ := checkNonzeroV_lc_val h
-    exact ⟨r, rfl, by unfold BoolV; rw [vr]; split <;> simp⟩
+    exact ⟨r, rfl, by unfold BoolLC; rw [vr]; split <;> simp⟩
   · obtain ⟨d, s1, h1, h⟩ := bind_ok.mp h
     obtain ⟨rfl, d1, rfl, _⟩ := subLV_val ho h1
     obtain ⟨d', s2, h2, h⟩ := bind_ok.mp h
@@ -459,7 +459,7 @@ theorem cmpLV_int_bool {op : Cmp} (ho : IsIntV o) (h : cmpLV op a o s = .ok (v, 
     exact checkPositiveV_lc_bool h
 
 theorem cmpV_int_bool {op : Cmp} {x y : Val} (hx : IsIntV x) (hy : IsIntV y)
-    (h : cmpV op x y s = .ok (v, s')) : ∃ r, v = .lcb r ∧ BoolV r := by
+    (h : cmpV op x y s = .ok (v, s')) : ∃ r, v = .lcb r ∧ BoolLC r := by
   unfold cmpV at h
   cases x <;> simp only [IsIntV] at hx <;> simp only at h
   · cases y <;> simp only [IsIntV] at hy <;> simp only at h
@@ -529,7 +529,7 @@ theorem evalE_inv {env : BEnv} {bv : BV} : ∀ (e : BExpr) {s s' : St} {v : Val}
 
 theorem evalC_inv {env : BEnv} {bv : BV} {c : BCond} {s s' : St} {v : Val} (hinv : Inv s) (hP : PrimeP s)
     (he : GoodE s env) (hv : GoodVals s bv.vals) (h : evalC env bv c s = .ok (v, s')) :
-    Spec s s' (∃ r, v = .lcb r ∧ Good s' r ∧ BoolV r) := by
+    Spec s s' (∃ r, v = .lcb r ∧ Good s' r ∧ BoolLC r) := by
   unfold evalC at h
   obtain ⟨x, s1, h1, h⟩ := bind_ok.mp h
   obtain ⟨y, s2, h2, h⟩ := bind_ok.mp h
@@ -563,14 +563,14 @@ theorem bIf_inv {c : LinComb} {bs bs' : BSt} {s s' : St} (hinv : Inv s) (hP : Pr
     (hc : Good s c) (h : bIf (.lcb c) bs s = .ok (bs', s')) : Spec s s' (GoodB s' bs') := by
   obtain ⟨c', ctx, hc', hn, rfl⟩ := bIf_ok h
   cases hc'
-  have hb : BoolV c := by
+  have hb : BoolLC c := by
     obtain ⟨ic, s1, og, hnot, _, _⟩ := ifNew_ok hn
     exact (boolNot_val hnot).2.2
   obtain ⟨le1, inv1, hP1, gc⟩ := ifNew_inv hinv hP ⟨hc, hb⟩ hg.vals hn
   exact ⟨le1, inv1, hP1, (hg.mono le1).push gc⟩
 
 theorem bWhilePush_inv {c : LinComb} {bs bs' : BSt} {s s' : St} (hinv : Inv s) (hP : PrimeP s) (hg : GoodB s bs)
-    (hc : Good s c ∧ BoolV c) (h : bWhilePush (.lcb c) bs s = .ok (bs', s')) : Spec s s' (GoodB s' bs') := by
+    (hc : Good s c ∧ BoolLC c) (h : bWhilePush (.lcb c) bs s = .ok (bs', s')) : Spec s s' (GoodB s' bs') := by
   obtain ⟨c', ctx, hc', hn, rfl⟩ := bWhilePush_ok h
   cases hc'
   obtain ⟨le1, inv1, hP1, gc⟩ := whileNew_inv hinv hP hc hg.vals hn
@@ -659,7 +659,7 @@ theorem bindVar_inv {env : BEnv} {x : Nat} {e : BExpr} {v : Val} {bs bs' : BSt} 
     exact bindNew_inv hinv hP hg hv h
 
 theorem guardedE_inv {env : BEnv} {bv : BV} {c : LinComb} {e : BExpr} {v : Val} {s s' : St} (hinv : Inv s)
-    (hP : PrimeP s) (he : GoodE s env) (hv : GoodVals s bv.vals) (hc : Good s c ∧ BoolV c)
+    (hP : PrimeP s) (he : GoodE s env) (hv : GoodVals s bv.vals) (hc : Good s c ∧ BoolLC c)
     (h : guardedM c (evalE env bv e) s = .ok (v, s')) : Spec s s' (GoodV s' v) := by
   unfold guardedM at h
   obtain ⟨bak, s1, h1, h⟩ := bind_ok.mp h
@@ -668,7 +668,7 @@ theorem guardedE_inv {env : BEnv} {bv : BV} {c : LinComb} {e : BExpr} {v : Val} 
   obtain ⟨rfl, rfl⟩ := pure_ok' h
   obtain ⟨le1, inv1, rfl⟩ := addGuard_lcb_inv hinv hc.1 hc.2 h1
   obtain ⟨le2, inv2, hP2, ga, _⟩ := evalE_inv e inv1 (hP.mono le1) (he.mono le1) (hv.mono le1) h2
-  obtain ⟨le3, inv3⟩ := restoreGuard_inv inv2 ((TripleOk.of_inv hinv).mono (le1.trans le2)) h3
+  obtain ⟨le3, inv3⟩ := restoreGuard_invT inv2 ((TripleOk.of_inv hinv).mono (le1.trans le2)) h3
   exact ⟨(le1.trans le2).trans le3, inv3, hP2.mono le3, ga.mono le3⟩
 
 theorem iteThunks_inv {env : BEnv} {bv : BV} {c : LinComb} {t f : BExpr} {r : Val} {s s' : St} (hinv : Inv s)
@@ -680,7 +680,7 @@ theorem iteThunks_inv {env : BEnv} {bv : BV} {c : LinComb} {t f : BExpr} {r : Va
   obtain ⟨fv, s3, h3, h⟩ := bind_ok.mp h
   obtain ⟨d, s4, h4, h⟩ := bind_ok.mp h
   obtain ⟨pr, s5, h5, h⟩ := bind_ok.mp h
-  have hb : BoolV c := (boolNot_val h2).2.2
+  have hb : BoolLC c := (boolNot_val h2).2.2
   obtain ⟨le1, inv1, hP1, gt⟩ := guardedE_inv hinv hP he hv ⟨hc, hb⟩ h1
   obtain ⟨le2, inv2, hP2, gn⟩ := boolNot_inv inv1 hP1 (hc.mono le1) h2
   have le12 := le1.trans le2
@@ -698,7 +698,7 @@ theorem iterM_runInv {s0 : St} {f : Nat → BSt → M BSt}
 
 theorem evalC_runInv {s0 : St} {env : BEnv} (he : GoodE s0 env) {c : BCond} {bs : BSt} {s s' : St} {v : Val}
     (hr : RunInv s0 bs s) (h : evalC env bs.bv c s = .ok (v, s')) :
-    RunInv s0 bs s' ∧ ∃ r, v = .lcb r ∧ Good s' r ∧ BoolV r := by
+    RunInv s0 bs s' ∧ ∃ r, v = .lcb r ∧ Good s' r ∧ BoolLC r := by
   obtain ⟨le1, inv1, hP1, hq⟩ := evalC_inv hr.inv hr.prime (he.mono hr.le) hr.good.vals h
   exact ⟨⟨hr.le.trans le1, inv1, hP1, hr.good.mono le1⟩, hq⟩
 
@@ -727,7 +727,7 @@ theorem whileRound_runInv {s0 : St} {env : BEnv} (he : GoodE s0 env) {body : BSt
 
 theorem neCmp_runInv {s0 : St} {ix : Nat} {st : LinComb} {bs : BSt} {s s' : St} {v : Val} (hr : RunInv s0 bs s)
     (hst : Good s st) (h : cmpV .ne (.int ix) (.lc st) s = .ok (v, s')) :
-    RunInv s0 bs s' ∧ ∃ r, v = .lcb r ∧ Good s' r ∧ BoolV r := by
+    RunInv s0 bs s' ∧ ∃ r, v = .lcb r ∧ Good s' r ∧ BoolLC r := by
   obtain ⟨le1, _, inv1, gr⟩ := cmpV_spec hr.inv hr.prime (a := .int ix) (b := .lc st) (by simp) (by simpa [GoodV] using hst) h
   obtain ⟨r, rfl, hb⟩ := cmpV_int_bool (x := .int ix) (y := .lc st) trivial trivial h
   exact ⟨⟨hr.le.trans le1, inv1, hr.prime.mono le1, hr.good.mono le1⟩, r, rfl, by simpa [GoodV] using gr, hb⟩
